@@ -335,6 +335,20 @@ def check_order_using(ctx, starts):
               'a token is kept when its rank is %s; ranks start at %s - the token ranked 0 (the globally rarest one) '
               'would vanish from every prefix' % ('truthy' if kind == 'truthy' else kind, min_start), where,
               sample='keep iff rank is not None (%s); ranks start at %s' % (kind, min_start))
+    # ---- a bag stays a bag: one rank per input token, collected in a list (a set would merge repeated q-grams and
+    # the token counts the filters work with would no longer be those of the string)
+    bad_set = None
+    for n in ast.walk(f.node):
+        if isinstance(n, (ast.SetComp, ast.Set)):
+            bad_set = n
+        if isinstance(n, ast.Call) and isinstance(n.func, ast.Name) and n.func.id in ('set', 'frozenset'):
+            bad_set = n
+        if isinstance(n, ast.Call) and isinstance(n.func, ast.Attribute) and n.func.attr == 'add':
+            bad_set = n
+    ctx.check('R-ORDER/bag', f, 'collection', bad_set is None,
+              'the ranks are collected in a set (`%s`): a token that occurs several times (bag of q-grams) is kept once, so '
+              'sizes, prefixes and overlaps are computed for another string' % (U(bad_set)[:50] if bad_set is not None else ''),
+              bad_set if bad_set is not None else f.node, sample='one rank per input token, in a list')
     # ---- sorted on every return path
     rets = [n for n in walk_own(f.node) if isinstance(n, ast.Return)]
     ok_s = bool(rets)
